@@ -65,7 +65,10 @@ def gen_case(rnd, tier: str, i: Any) -> Dict[str, Any]:
 
 def fixed_cases(tier: str):
     from hv import samples
-    return [dict(c, cfg={"ranks": [0], "include_memory_events": m, "pre_calls": []}) for c in samples.sample_cases(tier) for m in (False, True)]
+    out = [dict(c, cfg={"ranks": [0], "include_memory_events": m, "pre_calls": []}) for c in samples.sample_cases(tier) for m in (False, True)]
+    if tier == "thorough":
+        out = out + [{"files": {"rank0.json": gen_sim.huge_trace(23)}, "cfg": {"ranks": [0], "include_memory_events": True, "pre_calls": [], "inc_last": False}, "time_unit": 1}]          # row ids beyond int16
+    return out
 
 
 def run_case(case: Dict[str, Any], ctx: Any) -> core.CaseResult:
